@@ -24,6 +24,13 @@ class Old:
 OLD = Old()
 
 
+class IsFresh:
+    pass
+
+
+IS_FRESH = IsFresh()
+
+
 class Interp(ExprMixin):
     def __init__(self, reg, src, ctx, namespace=None):
         self.reg = reg
@@ -34,8 +41,9 @@ class Interp(ExprMixin):
         self.str_concat = getattr(reg, "str_concat", None)
         self.catches_index = False
         self.special = {"old": OLD, "forall": "__forall__", "exists": "__exists__",
-                        "implies": "__implies__", "ite": "__ite__"}
+                        "implies": "__implies__", "ite": "__ite__", "is_fresh": IS_FRESH}
         self.dropped = []     # nodes modelled as no-ops (reported in the evidence)
+        self.ghost = {}       # ghost effects of the current path (e.g. 'warned')
 
     # ================================================================== calls
     def ev_Call(self, node):
@@ -74,7 +82,17 @@ class Interp(ExprMixin):
             if isinstance(recv, SData) and f.attr in getattr(recv.ty.dt, "mutators", {}):
                 self.frame.env[f.value.id] = recv.ty.dt.mutators[f.attr](self, recv, self.ev_seq(node.args))
                 return None
-        fn = self.ev(f)
+        if isinstance(f, ast.Attribute):
+            base = self.ev(f.value)
+            if isinstance(base, SOpaque) and not hasattr(type(base), "own_methods"):
+                for a in node.args:
+                    self.ev(a.value if isinstance(a, ast.Starred) else a)
+                for kw in node.keywords:
+                    self.ev(kw.value)
+                return base.method(self, f.attr, [1] * len(node.args), {kw.arg: 1 for kw in node.keywords}, node)
+            fn = self.getattr(base, f.attr, f)
+        else:
+            fn = self.ev(f)
         if isinstance(fn, SOpaque) or (isinstance(fn, BoundMethod) and isinstance(fn.obj, SOpaque)):
             for a in node.args:      # arguments are evaluated for their effects; an opaque callee reveals nothing
                 self.ev(a.value if isinstance(a, ast.Starred) else a)
@@ -155,6 +173,9 @@ class Interp(ExprMixin):
             return self.call_method(fn.obj, fn.name, args, kwargs, node)
         if isinstance(fn, Closure):
             return self.call_closure(fn, args, kwargs, node)
+        if fn is IS_FRESH:
+            from .stmts import _m_is_fresh
+            return _m_is_fresh(self, args, kwargs, node)
         if isinstance(fn, SpecFn):
             return self.apply_spec(fn, args)
         if hasattr(fn, "__spec__"):
@@ -475,7 +496,11 @@ class Interp(ExprMixin):
 
     def const_default(self, d):
         try:
-            return ast.literal_eval(d)
+            v = ast.literal_eval(d)
+            if isinstance(v, (list, dict, set)):
+                self.fresh_ids.discard(id(v))
+                self._fresh_keep.append(v)      # keep alive so that its id is not reused by a fresh object
+            return v
         except Exception:
             raise Unsupported("non-literal default argument")
 
